@@ -283,7 +283,10 @@ class Backend(ABC):
                     queries.append(result)
 
             error_state = "finalizing query for"
-            # 3. Postprocess generated query if not part of a correlation rule
+            # 3. Postprocess generated query. A rule that is part of a correlation rule keeps its
+            # queries raw for embedding (unless the backend finalizes sub-queries); the queries
+            # the rule emits itself (generate: true) are finalized in any case.
+            embed_raw = not self.finalize_correlation_subqueries and bool(rule._backreferences)
             finalized_queries = (
                 [
                     self.finalize_query(
@@ -295,10 +298,10 @@ class Backend(ABC):
                     )
                     for index, query in enumerate(queries)
                 ]
-                if self.finalize_correlation_subqueries or not rule._backreferences
-                else queries
+                if not embed_raw or rule._output
+                else []
             )
-            rule.set_conversion_result(finalized_queries)
+            rule.set_conversion_result(queries if embed_raw else finalized_queries)
             rule.set_conversion_states(states)
             if rule._output:
                 return finalized_queries
@@ -781,18 +784,24 @@ class Backend(ABC):
                 if result is not None:
                     queries.append(result)
 
-            # Apply the finalization step
-            finalized_queries = [
-                self.finalize_query(
-                    rule,
-                    query,
-                    index,
-                    states[index],
-                    output_format or self.default_format,
-                )
-                for index, query in enumerate(queries)
-            ]
-            rule.set_conversion_result(finalized_queries)
+            # Apply the finalization step. As for plain rules, the queries of a correlation rule
+            # that is referenced by another correlation rule are embedded raw.
+            embed_raw = not self.finalize_correlation_subqueries and bool(rule._backreferences)
+            finalized_queries = (
+                [
+                    self.finalize_query(
+                        rule,
+                        query,
+                        index,
+                        states[index],
+                        output_format or self.default_format,
+                    )
+                    for index, query in enumerate(queries)
+                ]
+                if not embed_raw or rule._output
+                else []
+            )
+            rule.set_conversion_result(queries if embed_raw else finalized_queries)
             rule.set_conversion_states(states)
             if rule._output:
                 return finalized_queries
